@@ -471,6 +471,9 @@ func (brr *BalanceRR) simpleBalance() (*backend.BfeBackend, error) {
 				brr.initWeight()
 				brr.next = 0
 				next = 0
+				// the next round is judged on its own: backends seen
+				// available in this one may have gone down meanwhile
+				allBackendDown = true
 			}
 		}
 	}
